@@ -357,8 +357,30 @@ def _r3(run, results, classes):
     ml = classes['MultipletLineShape']
     init = ml.methods.get('__init__')
     run.subject('C02-R3')
-    ok = any(isinstance(n, ast.If) and 'sum() == 1.0' in norm(n.test) and '[1, :]' in norm(n.test) and any(isinstance(s, ast.Raise) for s in n.body)
-             for n in ast.walk(init))
+    from ..inline import resolver as _resolver
+    _res = _resolver(init)
+
+    def _rejects_unnormalised(n):
+        """an If whose body raises and whose test says 'the sum of row 1 is not one' (either spelling of the negation)"""
+        if not (isinstance(n, ast.If) and any(isinstance(s_, ast.Raise) for s_ in n.body)):
+            return False
+        for t in (n.test.values if isinstance(n.test, ast.BoolOp) and isinstance(n.test.op, ast.Or) else [n.test]):
+            t = _res(t)
+            neg = False
+            while isinstance(t, ast.UnaryOp) and isinstance(t.op, ast.Not):
+                t, neg = t.operand, not neg
+            if not (isinstance(t, ast.Compare) and len(t.ops) == 1):
+                continue
+            differs = (isinstance(t.ops[0], ast.Eq) and neg) or (isinstance(t.ops[0], ast.NotEq) and not neg)
+            sides = [t.left, t.comparators[0]]
+            one = [x for x in sides if isinstance(x, ast.Constant) and x.value == 1]
+            tot = [x for x in sides if not isinstance(x, ast.Constant)]
+            if differs and one and tot:
+                txt = norm(tot[0]).replace(' ', '')
+                if 'sum(' in txt and ('[1,:]' in txt or '[1]' in txt):
+                    return True
+        return False
+    ok = any(_rejects_unnormalised(n) for n in ast.walk(init))
     if ok:
         run.ok('C02-R3', 'MultipletLineShape ratios', 'constructor rejects tables whose ratios do not sum to one')
     else:
